@@ -308,3 +308,11 @@ package certstore
 //@   maypanic
 //@   at close 1
 //@     before[closed_under_the_lock_after_being_unregistered] dominatedBy(Lock, 1) && !called(Unlock, 1) && arg(0) == ch && !has(cs.subscribers, ch)
+
+// A table passes only when the CID computed from exactly that table equals the expected one.
+//@ func checkPowerTable
+//@   property C17
+//@   modifies auto
+//@   maypanic
+//@   inlined
+//@   ensures[passes_only_on_the_expected_cid] result == nil ==> res(MakePowerTableCID, 1, 1) == nil && res(MakePowerTableCID, 1, 0) == expectedCid && argOf(MakePowerTableCID, 1, 0) == pt
